@@ -74,6 +74,8 @@ impl Write for WritableFile {
         self.content.flush()?;
         let mut content = self.content.get_ref().clone();
         swap(&mut content, self.content.get_mut());
+        #[cfg(feature = "verif-hooks")]
+        crate::verif_hooks::yield_point("flush:publish");
         let mut handle = self.fs.write().unwrap();
         let previous_file = handle.files.get(&self.destination);
 
@@ -162,6 +164,8 @@ impl Seek for ReadableFile {
 impl FileSystem for MemoryFS {
     fn read_dir(&self, path: &str) -> VfsResult<Box<dyn Iterator<Item = String> + Send>> {
         let prefix = format!("{}/", path);
+        #[cfg(feature = "verif-hooks")]
+        crate::verif_hooks::yield_point("read_dir:list");
         let handle = self.handle.read().unwrap();
         let mut found_directory = false;
         let mut is_directory = false;
@@ -193,6 +197,8 @@ impl FileSystem for MemoryFS {
     }
 
     fn create_dir(&self, path: &str) -> VfsResult<()> {
+        #[cfg(feature = "verif-hooks")]
+        crate::verif_hooks::yield_point("create_dir:insert");
         let mut handle = self.handle.write().unwrap();
         Self::ensure_has_parent(&handle.files, path)?;
         let map = &mut handle.files;
@@ -223,6 +229,8 @@ impl FileSystem for MemoryFS {
     fn open_file(&self, path: &str) -> VfsResult<Box<dyn SeekAndRead + Send>> {
         self.set_access_time(path, SystemTime::now())?;
 
+        #[cfg(feature = "verif-hooks")]
+        crate::verif_hooks::yield_point("open_file:get");
         let handle = self.handle.read().unwrap();
         let file = handle.files.get(path).ok_or(VfsErrorKind::FileNotFound)?;
         ensure_file(file)?;
@@ -234,6 +242,8 @@ impl FileSystem for MemoryFS {
 
     fn create_file(&self, path: &str) -> VfsResult<Box<dyn SeekAndWrite + Send>> {
         let content = Arc::new(Vec::<u8>::new());
+        #[cfg(feature = "verif-hooks")]
+        crate::verif_hooks::yield_point("create_file:insert");
         let mut handle = self.handle.write().unwrap();
         Self::ensure_has_parent(&handle.files, path)?;
         if let Some(existing) = handle.files.get(path) {
@@ -259,6 +269,8 @@ impl FileSystem for MemoryFS {
     }
 
     fn append_file(&self, path: &str) -> VfsResult<Box<dyn SeekAndWrite + Send>> {
+        #[cfg(feature = "verif-hooks")]
+        crate::verif_hooks::yield_point("append_file:snapshot");
         let handle = self.handle.write().unwrap();
         let file = handle.files.get(path).ok_or(VfsErrorKind::FileNotFound)?;
         ensure_file(file)?;
@@ -273,6 +285,8 @@ impl FileSystem for MemoryFS {
     }
 
     fn metadata(&self, path: &str) -> VfsResult<VfsMetadata> {
+        #[cfg(feature = "verif-hooks")]
+        crate::verif_hooks::yield_point("metadata:get");
         let guard = self.handle.read().unwrap();
         let files = &guard.files;
         let file = files.get(path).ok_or(VfsErrorKind::FileNotFound)?;
@@ -286,6 +300,8 @@ impl FileSystem for MemoryFS {
     }
 
     fn set_creation_time(&self, path: &str, time: SystemTime) -> VfsResult<()> {
+        #[cfg(feature = "verif-hooks")]
+        crate::verif_hooks::yield_point("set_creation_time");
         let mut guard = self.handle.write().unwrap();
         let files = &mut guard.files;
         let file = files.get_mut(path).ok_or(VfsErrorKind::FileNotFound)?;
@@ -296,6 +312,8 @@ impl FileSystem for MemoryFS {
     }
 
     fn set_modification_time(&self, path: &str, time: SystemTime) -> VfsResult<()> {
+        #[cfg(feature = "verif-hooks")]
+        crate::verif_hooks::yield_point("set_modification_time");
         let mut guard = self.handle.write().unwrap();
         let files = &mut guard.files;
         let file = files.get_mut(path).ok_or(VfsErrorKind::FileNotFound)?;
@@ -306,6 +324,8 @@ impl FileSystem for MemoryFS {
     }
 
     fn set_access_time(&self, path: &str, time: SystemTime) -> VfsResult<()> {
+        #[cfg(feature = "verif-hooks")]
+        crate::verif_hooks::yield_point("set_access_time");
         let mut guard = self.handle.write().unwrap();
         let files = &mut guard.files;
         let file = files.get_mut(path).ok_or(VfsErrorKind::FileNotFound)?;
@@ -316,10 +336,14 @@ impl FileSystem for MemoryFS {
     }
 
     fn exists(&self, path: &str) -> VfsResult<bool> {
+        #[cfg(feature = "verif-hooks")]
+        crate::verif_hooks::yield_point("exists");
         Ok(self.handle.read().unwrap().files.contains_key(path))
     }
 
     fn remove_file(&self, path: &str) -> VfsResult<()> {
+        #[cfg(feature = "verif-hooks")]
+        crate::verif_hooks::yield_point("remove_file");
         let mut handle = self.handle.write().unwrap();
         let file = handle.files.get(path).ok_or(VfsErrorKind::FileNotFound)?;
         ensure_file(file)?;
@@ -331,6 +355,8 @@ impl FileSystem for MemoryFS {
     }
 
     fn remove_dir(&self, path: &str) -> VfsResult<()> {
+        #[cfg(feature = "verif-hooks")]
+        crate::verif_hooks::yield_point("remove_dir");
         let mut handle = self.handle.write().unwrap();
         let directory = handle.files.get(path).ok_or(VfsErrorKind::FileNotFound)?;
         if directory.file_type != VfsFileType::Directory {
